@@ -182,6 +182,23 @@ func wrapKind(k types.BasicKind, t *Term) *Term {
 	}
 	w, signed := kindWidth(k)
 	m := ConstInt(new(big.Int).Lsh(bi(1), uint(w)))
+	if i.lo != nil {
+		// the interval spans only a few multiples of 2^w: wrap with an ite chain (linear, no mod)
+		kmin, _ := new(big.Int).DivMod(new(big.Int).Sub(i.lo, lo), m.Val, new(big.Int))
+		kmax, _ := new(big.Int).DivMod(new(big.Int).Sub(i.hi, lo), m.Val, new(big.Int))
+		if new(big.Int).Sub(kmax, kmin).Cmp(bi(4)) <= 0 {
+			// value = t - k*2^w for the k with lo + k*2^w <= t < lo + (k+1)*2^w
+			kk := new(big.Int).Set(kmax)
+			r := IntBin("-", t, ConstInt(new(big.Int).Mul(kk, m.Val)))
+			for kk.Cmp(kmin) > 0 {
+				kk = new(big.Int).Sub(kk, bi(1))
+				bound := new(big.Int).Add(lo, new(big.Int).Mul(new(big.Int).Add(kk, bi(1)), m.Val))
+				r = Ite(IntCmp("<", t, ConstInt(bound)), IntBin("-", t, ConstInt(new(big.Int).Mul(kk, m.Val))), r)
+			}
+			setIv(r, lo, hi)
+			return r
+		}
+	}
 	if !signed {
 		return IntBin("mod", t, m)
 	}
